@@ -46,18 +46,31 @@ class LazyHex:
         return self
 
 
-class HB:
-    """List-backed immutable byte string (possibly symbolic content / length)."""
-    __slots__ = ("v",)
+def _realize(x):
+    try:
+        from crosshair.core import realize
+        return realize(x)
+    except Exception:
+        return x
 
-    def __init__(self, v):
+
+class HB:
+    """List-backed immutable byte string (possibly symbolic content / length).
+    realize_slices: for long CONCRETE payloads sliced with symbolic bounds it is much cheaper to let the
+    solver enumerate the bound (<= 255 values) than to iterate a symbolic-length view of 255 elements."""
+    __slots__ = ("v", "realize_slices")
+
+    def __init__(self, v, realize_slices=False):
         self.v = v
+        self.realize_slices = realize_slices
 
     def __len__(self):
         return len(self.v)
 
     def __getitem__(self, i):
         if isinstance(i, slice):
+            if self.realize_slices:
+                i = slice(_realize(i.start), _realize(i.stop), i.step)
             return HB(self.v[i])
         return self.v[i]
 
@@ -148,11 +161,11 @@ def _native_fromhex(s):
 BYTES_MODEL = _BytesModel()
 
 
-def mkbytes(v):
+def mkbytes(v, realize_slices=False):
     """A byte string for the code under test: HB symbolically, real bytes in replay."""
     if REPLAY:
         return bytes(list(v))
-    return HB(v)
+    return HB(v, realize_slices)
 
 
 def resp(v):
